@@ -212,7 +212,12 @@ func (v *sxView) kindOfTest(op Term, T types.Type, l *LoopRec) string {
 		return ""
 	}
 	_, isBasic := T.(*types.Basic)
-	_, isPtr := T.(*types.Pointer)
+	ptr, isPtr := T.(*types.Pointer)
+	if isPtr {
+		if n, ok := ptr.Elem().(*types.Named); ok && v.c.Inv().ContOf(n) != nil {
+			return "" // *list / *object: a derived container stored in the list is neither — containers are recognised by their interface
+		}
+	}
 	switch {
 	case isBasic && form == "val":
 		return k
